@@ -97,6 +97,7 @@ def main():
     checker_cmds = []
     bounded_units = []
     bounded_run = bounded_ok = 0
+    bounded_not_completed = []
 
     try:
         # ---- frame checks (syntactic side conditions the contracts rely on) ----
@@ -179,6 +180,7 @@ def main():
                         violations.append(dict(f, unit="kani", engine="kani"))
             assumptions += kr["assumptions"]
             trusted += kr["trusted"]
+            bounded_not_completed += kr.get("not_completed", [])
 
         # ---- witness search for Verus failures (replay on the real code) ----
         for v in violations:
@@ -236,7 +238,7 @@ def main():
             "rule": "evaluations = CBMC property checks evaluated by the Kani harnesses of this run + contract clauses and vacuity canaries checked by Verus; "
                     "a case is one Kani harness with at least one reachable check, or one spliced contract clause (requires/ensures/invariant/decreases) -- all distinct by construction",
             "bounded_stand_ins_not_counted_as_proved": bounded_units,
-            "bounded_stand_ins": {"run": bounded_run, "passed": bounded_ok, "note": "Kani harnesses with a stated bound; NOT included in obligations/discharged"},
+            "bounded_stand_ins": {"run": bounded_run, "passed": bounded_ok, "not_completed_within_timeout": bounded_not_completed, "note": "Kani harnesses with a stated bound; NOT included in obligations/discharged"},
             "units": [{"unit": r["unit"], "reused_from_cache": bool(r.get("cache_hit")), "verify_wall_s": round(r.get("verify_wall_s") or 0, 1), "smt_ms": r.get("smt_ms"),
                        "functions_verified": r.get("verified"), "slowest": sorted([(f["function"], f["ms"]) for f in r.get("function_breakdown", [])], key=lambda x: -x[1])[:3]} for r in unit_results],
             "not_decided": cfg.get("not_decided", []),
